@@ -131,9 +131,10 @@ def builderCase : P String := do
     let rc ← optOf nat
     let vr ← bool
     let geo ← optOf nat
+    let emptyLs ← bool
     let q ← JsonProto.json
     let oc ← tableP ecandP
-    match edgeBuilder cfg ⟨rc, vr, geo⟩ with
+    match edgeBuilder cfg ⟨rc, vr, geo, emptyLs⟩ with
     | .error e => pure ("err " ++ cfgErrOut e)
     | .ok pl => pure ("ok " ++ outcomeOut (edgeProcess (tolOfBits pl.tolerance) [] pl.hasLookup q oc []))
   | _ => failure
